@@ -163,6 +163,9 @@ class Checker:
         if self.tools: self.tools.cleanup()
         return rc
 
+def pinned(prop):
+    return json.load(open(os.path.join(COQ, 'props', 'PINNED.json')))[prop]
+
 def strip_comments(src):
     out = []; depth = 0; i = 0
     while i < len(src):
